@@ -295,7 +295,11 @@ def _one_campaign(target_name, mode, seeds, nruns, seed, root, dictionary, budge
     res["stopped_by_time"] = bool(res["executions"] < nruns and time_left <= 5)
     res["corpus_after"] = _nfiles(corpus)
     res["artifacts"] = sorted(os.path.join(art, n) for n in os.listdir(art) if not n.endswith(".json"))
-    res["outcomes"] = dict(sorted(res["outcomes"].items()))
+    top = res["outcomes"].most_common(80)
+    rest = sum(res["outcomes"].values()) - sum(v for _, v in top)
+    res["outcomes"] = dict(sorted(top))
+    if rest:
+        res["outcomes"]["(other labels)"] = rest
     out[mode] = res
 
 
